@@ -22,4 +22,16 @@ PROPS = {
             'output file names are formatted in on_complete functions that are out of reach (format!/fs)',
         ],
     },
+    'C06': {
+        'units': ['script_custom'],
+        'kani_quick': [],
+        'kani_thorough': [],
+        'trusted': [
+            'sha256d, hash160, base58::encode of rust-bitcoin / bitcoin_hashes: uninterpreted primitives (the proof fixes WHICH bytes are hashed / encoded)',
+            'Opcode::classify(Legacy) == class_of table (prelude/opcodes.inc) and the all::OP_* constants -- validated by Kani over all 256 opcodes (lane K)',
+            'ScriptEvaluator::read_uint contract (iter().enumerate().take() is outside Verus) -- validated by Kani on the real body',
+            'String::from_utf8_lossy == lossy_utf8 (uninterpreted); Vec::<u8>::from(&[u8]) copies (admitted FromSpec axiom)',
+            'input precondition: script length <= u32::MAX (scripts are read through a u32 length, proved in unit reader)',
+        ],
+    },
 }
